@@ -278,6 +278,34 @@ theorem randomChance_prob (m N : Nat) :
       | .panic => false) = min m N := by
   simpa [randomChance] using countP_lt_range N m
 
+/-- The property fixes the PROBABILITY, not which generator words fire: apply the threshold test after
+ANY bijective relabelling `σ` of the `N` words (a legal witness of "one uniform word decides") and
+still exactly `min m N` of them fire. `σ = id` is `gen_bool`; `σ w = N − 1 − w` fires on the `m`
+largest words instead. -/
+theorem randomChance_prob_any_mapping (m N : Nat) (σ : Nat → Nat)
+    (hσ : ((List.range N).map σ).Perm (List.range N)) :
+    ((List.range N).countP fun w =>
+      match randomChance (.thr m) [σ w] with
+      | .ok (r, _) => r
+      | .panic => false) = min m N := by
+  simpa [randomChance] using countP_relabel N m σ hσ
+
+/-- The instance "fire on the `m` LARGEST words" spelled out. -/
+theorem randomChance_prob_upper_end (m N : Nat) :
+    ((List.range N).countP fun w => decide (N - 1 - w < m)) = min m N :=
+  countP_upper_range N m
+
+/-- What the sweep of the correspondence check measures: of `N` equidistant words `o + k · D`
+(`k < N`, any offset `o < D`) the number that fires is `min c N` with `c = ⌊m / D⌋` or `⌊m / D⌋ + 1`
+— with `N · D = 2^64` and `m = ⌊p · 2^64⌋` that is `p · N` up to one word (plus the truncation of `m`). -/
+theorem randomChance_sweep (N D o m : Nat) (hD : 0 < D) (ho : o < D) :
+    ∃ c, ((List.range N).countP fun k =>
+        match randomChance (.thr m) [o + k * D] with
+        | .ok (r, _) => r
+        | .panic => false) = min c N ∧ m / D ≤ c ∧ c ≤ m / D + 1 := by
+  refine ⟨(m - o + D - 1) / D, ?_, sweep_lower_bounds D o m hD ho⟩
+  simpa [randomChance] using sweep_lower_count N D o m hD
+
 /-- The threshold is `⌊p · 2^64⌋` for a double `p = k · 2^-1074` in `[0, 1)`; `p = 1` always fires
 without drawing; every other `p` (negative, above 1, NaN, infinite) is rejected (panic). -/
 theorem randomChance_threshold (k : Int) :
@@ -329,6 +357,8 @@ example : optimumReached (1 : Int) (some 3) 2 = true ∧ optimumReached (1 : Int
 example : (changeOfRun (deltaEq 2) none [5, 6, 8, 8, 5])[3]? = some false ∧
     lastReported [5, 6, 8] [true, false, true] = some 8 := by decide
 example : bernoulliNew (Objective.ofBits 0x3fe0000000000000) = .thr (2 ^ 63) := by decide +kernel
+example : ((List.range 6).map (fun w => 5 - w)).Perm (List.range 6) := by decide
+example : ((List.range 8).countP fun k => decide (3 + k * 4 < 18)) = 4 ∧ 18 / 4 = 4 := by decide
 example : (eval (fun o => if o = 1 then .err else .val true)
     (.and (.cons (.leaf 0 0) (.cons (.leaf 1 1) (.cons (.leaf 2 2) .nil)))) []) = (.err, [0, 1]) := by decide
 
